@@ -37,10 +37,49 @@ func buildAPI(c *core.Ctx, t *ref.TaxTree) *obitax.Taxonomy {
 		c.Violate("build:"+step, "the obitax API refuses a well-formed taxonomy at "+step, d)
 		return nil
 	}
+	// one build in three: a taxon that has children is first entered under another parent (the root),
+	// the taxonomy is indexed, then the taxon is redefined with its true parent and the taxonomy is
+	// indexed again (what a user does to correct a taxonomy loaded from a dump)
+	redo, root := -1, -1
+	for i := 0; i < n; i++ {
+		if t.Parent[i] == i {
+			root = i
+		}
+	}
+	if r.Intn(3) == 0 && root >= 0 {
+		var cands []int
+		hasChild := make([]bool, n)
+		for i := 0; i < n; i++ {
+			if t.Parent[i] != i {
+				hasChild[t.Parent[i]] = true
+			}
+		}
+		for i := 0; i < n; i++ {
+			if i != root && hasChild[i] && t.Parent[i] != root {
+				cands = append(cands, i)
+			}
+		}
+		if len(cands) > 0 {
+			redo = cands[r.Intn(len(cands))]
+		}
+	}
 	for _, i := range r.Perm(n) { // any insertion order: children may come before their parent
-		if _, err := tax.AddNewTaxa(t.Taxid[i], t.Taxid[t.Parent[i]], t.Rank[i], false, true); err != nil {
+		parent := t.Taxid[t.Parent[i]]
+		if i == redo {
+			parent = t.Taxid[root]
+		}
+		if _, err := tax.AddNewTaxa(t.Taxid[i], parent, t.Rank[i], false, true); err != nil {
 			return fail("AddNewTaxa", err)
 		}
+	}
+	if redo >= 0 {
+		if err := tax.ReindexParent(); err != nil {
+			return fail("ReindexParent", err)
+		}
+		if _, err := tax.AddNewTaxa(t.Taxid[redo], t.Taxid[t.Parent[redo]], t.Rank[redo], true, true); err != nil {
+			return fail("AddNewTaxa(redefine)", err)
+		}
+		c.Count("taxonomies_with_a_redefined_taxon", 1)
 	}
 	if r.Intn(3) == 0 { // adding a taxon again with replace=true (as the dump loader does) is allowed
 		i := r.Intn(n)
